@@ -269,6 +269,9 @@ func mkPkgs(tier string) []Pkg {
 		names         []string
 	}{
 		{"const", "const (\n\tCf uint64 = 1\n\tCm uint64 = 60 * Cf\n\tCl uint64 = 60 * Cm\n)", "func U$N() uint64 {\n\treturn $N + 1\n}", []string{"Cf", "Cm", "Cl"}},
+		// the specs of one group in reverse dependency order (legal Go: package-level order is free)
+		{"const_rev", "const (\n\tRl uint64 = 60 * Rm\n\tRm uint64 = 60 * Rf\n\tRf uint64 = 1\n)", "func U$N() uint64 {\n\treturn $N + 1\n}", []string{"Rl", "Rm", "Rf"}},
+		{"var_rev", "var (\n\tVl uint64 = 60 * Vm\n\tVm uint64 = 60 * Vf\n\tVf uint64 = 1\n)", "func U$N() uint64 {\n\treturn $N + 1\n}", []string{"Vl", "Vm", "Vf"}},
 	}
 	for _, g := range groups {
 		for _, n := range g.names {
@@ -292,6 +295,24 @@ func mkPkgs(tier string) []Pkg {
 	// (types, method and the interface user are pinned first so that the known St__to__I / St__m ordering finding plays no part)
 	head = "type I interface {\n\tm() uint64\n}\n\ntype St struct {\n\tv uint64\n}\n\nfunc (s St) m() uint64 {\n\treturn s.v\n}\n\nfunc use(i I) uint64 {\n\treturn i.m()\n}\n"
 	emit("special_conversion_call_chain", []string{"func report() uint64 {\n\treturn total() + 1\n}", "func unitArea() uint64 {\n\treturn use(St{v: 1})\n}", "func total() uint64 {\n\ts := St{v: 2}\n\treturn use(s)\n}"}, []string{"I", "St", "St__m", "use", "report", "unitArea", "total", "St__to__I"})
+	for _, cs := range []struct{ id, fn string }{
+		{"in_if", "func inIf(x uint64) uint64 {\n\tif x > 1 {\n\t\treturn use(St{v: 2})\n\t}\n\treturn 0\n}"},
+		{"in_loop", "func inLoop(x uint64) uint64 {\n\tvar acc uint64 = 0\n\tfor i := uint64(0); i < x; i++ {\n\t\tacc = acc + use(St{v: i})\n\t}\n\treturn acc\n}"},
+		{"pointer_arg", "func viaPtr() uint64 {\n\ts := &St{v: 1}\n\treturn use(s)\n}"},
+		{"in_define", "func inDefine() uint64 {\n\tr := use(St{v: 1})\n\treturn r + 1\n}"},
+		{"in_binop", "func inBinop() uint64 {\n\treturn 1 + use(St{v: 1})\n}"},
+		{"in_arg", "func twice(a uint64) uint64 {\n\treturn a + a\n}\n\nfunc inArg() uint64 {\n\treturn twice(use(St{v: 1}))\n}"},
+		{"in_closure", "func inClosure() uint64 {\n\tf := func() uint64 {\n\t\treturn use(St{v: 1})\n\t}\n\treturn f()\n}"},
+		{"in_else", "func inElse(x uint64) uint64 {\n\tif x > 1 {\n\t\treturn 0\n\t} else {\n\t\treturn use(St{v: 2})\n\t}\n}"},
+	} {
+		names := []string{"I", "St", "St__m", "use", "St__to__I"}
+		for _, l := range strings.Split(cs.fn, "\n") {
+			if strings.HasPrefix(l, "func ") {
+				names = append(names, l[5:strings.Index(l, "(")])
+			}
+		}
+		emit("special_conversion_"+cs.id, []string{cs.fn}, names)
+	}
 	head = ""
 	if tier == "thorough" {
 		// chains A -> B -> C
